@@ -555,7 +555,18 @@ func (u *Unit) jump(s *State, f *Frame, to *ssa.BasicBlock) {
 		if li.body[top.Head][to] {
 			break
 		}
-		if top.Spec != nil && len(top.Spec.Exits) > 0 {
+		// an edge into a block that just returns is a `return` from inside the loop, not a way of
+		// leaving the loop to carry on after it: `exit` clauses do not apply (`return N:` clauses do)
+		_, toReturns := to.Instrs[len(to.Instrs)-1].(*ssa.Return)
+		if toReturns {
+			// ... unless that block is where the loop head itself goes when the loop is over
+			for _, hs := range top.Head.Succs {
+				if hs == to {
+					toReturns = false
+				}
+			}
+		}
+		if top.Spec != nil && len(top.Spec.Exits) > 0 && !toReturns {
 			env := u.specEnv(s, f)
 			fk := fnKey(f.Fn)
 			for i, ex := range top.Spec.Exits {
